@@ -108,7 +108,8 @@ def run(chk, prop):
         chk.count("outcomes_compared_with_model")
         if differs:
             chk.count("outcome_differs_from_model")
-        if not (is_seed or differs or chk.rng.random() <= keep):
+        scalar = s["t"] not in ("list", "dict", "any", "alias", "custom")
+        if not (is_seed or differs or scalar or chk.rng.random() <= keep):
             continue
         ev = observe(real, s, v_abs, v_real, nprobes, chk.rng)
         ev["id"] = len(events) + 1
